@@ -42,7 +42,7 @@ def rand_text(rng, md, big=True):
 
 
 def generate(rng, tier):
-    n = 2500 if tier == "quick" else 50000
+    n = 6000 if tier == "quick" else 60000
     cases = []
     for i in range(n):
         md = MODES[i % 4] if i % 2 else "G"
